@@ -83,9 +83,14 @@ def gen_cases(rng, stats, n, shrink=0.15):
                 can["replicas"] = rng.choice([1, 1, 2, "10%", "25%"])
                 wprop.bump(stats, "previous list longer than replicas", "yes")
             wprop.bump(stats, "replicas", can["replicas"])
-            if rng.random() < 0.3:
+            if rng.random() < 0.4:
+                # by labels, by expressions only (matchLabels absent), both, an expression nothing satisfies
                 can["nodeSelector"] = rng.choice([{"matchLabels": {"role": "w"}}, {"matchLabels": {"zone": "a"}},
                                                   {"matchExpressions": [{"key": "zone", "operator": "In", "values": ["a", "b"]}]},
+                                                  {"matchExpressions": [{"key": "zone", "operator": "In", "values": ["a"]}]},
+                                                  {"matchExpressions": [{"key": "role", "operator": "NotIn", "values": ["w"]}]},
+                                                  {"matchExpressions": [{"key": "big", "operator": "Exists"}]},
+                                                  {"matchLabels": {"role": "w"}, "matchExpressions": [{"key": "zone", "operator": "In", "values": ["b"]}]},
                                                   {"matchExpressions": [{"key": "zone", "operator": "In", "values": []}]}])
         # make sure the failed condition is rare here (a failed canary has no list)
         nodes = [o for o in c["objects"] if o["kind"] == "Node"]
